@@ -4,7 +4,7 @@ from common import *
 from props.c09 import _b58, B58, NETS
 
 PID = "C10"
-THEOREMS = ['C10_accept_iff', 'C10_roundtrip', 'C10_length', 'C10_pubkey_address']
+THEOREMS = ['C10_accept_iff', 'C10_roundtrip', 'C10_length', 'C10_pubkey_address', 'C10_zero_hash_example']
 TECHNIQUE = "Coq proof (acceptance predicate = Base58Check definition on every string; decode inverts encode; length window) + extracted-model correspondence with an independent encoder and rejection streams"
 RULE = ("20-byte hashes with 0..20 leading zero bytes, four networks, both address types; addresses from public keys (compressed and uncompressed, "
         "both orders on one object); rejection: every single-character substitution (sampled over positions and symbols), other type's / other "
